@@ -6,6 +6,7 @@
   image converter (content type, bytes) in document order.
 -/
 import Proofs.C20_Cli
+import Proofs.C20_EndToEnd
 import Proofs.C12_Utf8
 namespace Mammoth
 
@@ -265,5 +266,471 @@ example :
     cliRunO { path := S!"a.docx", outputDir := some S!"o" } S!"v" [S!"m"]
       [(some S!"image/png", some [7]), (none, some [8])]
     = { files := [(S!"o/1.png", [7])], srcs := [S!"1.png"], exitCode := 1 } := by decide
+
+/-! ## End to end: the command as a function of the PACKAGE
+
+  `c20_cli args p world fuel` (`Proofs/C20_EndToEnd.lean`) composes the model of the command with the model of
+  the library: `args` (with the TEXT of the `--style-map` file), the package `p` (the parsed input file), the
+  outside world (what opening a path / URL yields, for linked images) ↦ what `main()` writes; `.error e` when
+  the library raises `e`.  The library call is
+
+      `apiConvert p fuel (some (c20_dirname args.path)) world id
+          { styleMap := args.styleMap, format := fmt, imageConv := conv }`
+
+  = `mammoth.convert(open(args.path, "rb"), style_map=…, convert_image=…, output_format=…)` (all other options
+  at their defaults: built-in and embedded style maps included), `conv` = the default `data_uri` converter
+  without `--output-dir`.  With `--output-dir` the converter is `img_element(ImageWriter(dir))`; the model's
+  family of image converters does not contain it (its `src` differs from call to call), so the run is
+  composed of `apiConvert` with `c20_writerConv` (`img_element(f)` for an `f` that opens every image and
+  returns no attribute: same calls, same `open()`s, same warnings, one fresh childless `img` per opened image),
+  the model's `ImageWriter` (`imageWriterRunO`), and the substitution `c20_putSrcs` that gives the k-th such
+  `img` the k-th `src` the `ImageWriter` returned (`c20_putSrc_tag`: the result is the element the model's own
+  `img_element` makes for `{"src": name}`).  The real command agrees with `c20_cli` on the example packages
+  below, byte for byte (files, stdout; stderr up to the OS error text the model leaves out of the warning). -/
+
+/-- STDOUT.  No output path, no `--output-dir`, `--output-format` absent / `html` / `markdown`, any style-map
+    text (or none): if the library returns `out` for the package, the command writes to standard output the
+    bytes `utf8Encode out.value` and nothing else anywhere (no file), exit status 0.  If the library raises,
+    so does the command (nothing written). -/
+theorem C20_stdout_is_value (args : CliArgs) (p : Package) (world : Str → Option Bytes) (fuel : Nat)
+    (fmt : Format) (ho : args.output = none) (hd : args.outputDir = none)
+    (hf : c20_format args.format = some fmt) :
+    (∀ out, apiConvert p fuel (some (c20_dirname args.path)) world id
+          { styleMap := args.styleMap, format := fmt } = .ok out →
+      ∃ res, c20_cli args p world fuel = .ok res ∧
+        res.stdout = utf8Encode out.value ∧ res.files = [] ∧ res.exitCode = 0) ∧
+    (∀ e, apiConvert p fuel (some (c20_dirname args.path)) world id
+          { styleMap := args.styleMap, format := fmt } = .error e →
+      c20_cli args p world fuel = .error e) := by
+  have hv : args.valid = true := by simp [CliArgs.valid, ho]
+  have hc := c20_cli_nodir args p world fuel fmt hv hf hd
+  constructor
+  · intro out hout
+    have hout' : c20_convert args p world fuel fmt .dataUri = .ok out := hout
+    rw [hout'] at hc
+    exact ⟨_, hc, by simp [cliRun, hv, hd, ho]⟩
+  · intro e herr
+    have herr' : c20_convert args p world fuel fmt .dataUri = .error e := herr
+    rw [herr'] at hc
+    exact hc
+
+/-- OUTPUT PATH.  With an output path (and hence no `--output-dir`): that file receives exactly
+    `utf8Encode out.value`; it is the only file written and standard output stays empty. -/
+theorem C20_file_is_value (args : CliArgs) (p : Package) (world : Str → Option Bytes) (fuel : Nat)
+    (fmt : Format) (path : Str) (ho : args.output = some path) (hd : args.outputDir = none)
+    (hf : c20_format args.format = some fmt) :
+    (∀ out, apiConvert p fuel (some (c20_dirname args.path)) world id
+          { styleMap := args.styleMap, format := fmt } = .ok out →
+      ∃ res, c20_cli args p world fuel = .ok res ∧
+        res.files = [(path, utf8Encode out.value)] ∧ res.stdout = [] ∧ res.exitCode = 0) ∧
+    (∀ e, apiConvert p fuel (some (c20_dirname args.path)) world id
+          { styleMap := args.styleMap, format := fmt } = .error e →
+      c20_cli args p world fuel = .error e) := by
+  have hv : args.valid = true := by simp [CliArgs.valid, hd]
+  have hc := c20_cli_nodir args p world fuel fmt hv hf hd
+  constructor
+  · intro out hout
+    have hout' : c20_convert args p world fuel fmt .dataUri = .ok out := hout
+    rw [hout'] at hc
+    exact ⟨_, hc, by simp [cliRun, hv, hd, ho]⟩
+  · intro e herr
+    have herr' : c20_convert args p world fuel fmt .dataUri = .error e := herr
+    rw [herr'] at hc
+    exact hc
+
+/-- STDERR.  In both modes without `--output-dir` (stdout or output path), either format, any style-map text:
+    standard error receives the messages of THE SAME library call whose value is written — all of them, in
+    order, each followed by one newline; so when no message contains a newline the lines of stderr are exactly
+    the messages.  (For `--output-dir` the same is part of `C20_output_dir_images` /
+    `C20_counter_only_advances_on_success`.) -/
+theorem C20_stderr_is_messages (args : CliArgs) (p : Package) (world : Str → Option Bytes) (fuel : Nat)
+    (fmt : Format) (hd : args.outputDir = none) (hf : c20_format args.format = some fmt) (out : ApiOut)
+    (hout : apiConvert p fuel (some (c20_dirname args.path)) world id
+          { styleMap := args.styleMap, format := fmt } = .ok out) :
+    ∃ res, c20_cli args p world fuel = .ok res ∧
+      res.stderr = out.messages ∧ res.stderrText = stderrTextOf out.messages ∧
+      ((∀ m ∈ out.messages, '\n' ∉ m) → splitOnChar '\n' res.stderrText = out.messages ++ [[]]) := by
+  have hv : args.valid = true := by simp [CliArgs.valid, hd]
+  have hc := c20_cli_nodir args p world fuel fmt hv hf hd
+  have hout' : c20_convert args p world fuel fmt .dataUri = .ok out := hout
+  rw [hout'] at hc
+  obtain ⟨m1, m2, m3⟩ := C20_messages_lines args out.value out.messages [] hv
+  exact ⟨_, hc, m1, m2, m3⟩
+
+/-- an unknown `--output-format` is a usage error (argparse `choices`): exit status 2, nothing written -/
+theorem C20_bad_format (args : CliArgs) (p : Package) (world : Str → Option Bytes) (fuel : Nat)
+    (hf : c20_format args.format = none) : c20_cli args p world fuel = .ok { exitCode := 2 } := by
+  unfold c20_cli
+  by_cases hv : args.valid = true
+  · simp [hv, hf]
+  · simp [hv]
+
+/-- DOCUMENT ORDER.  The images handed to the image converter (`out.imageCalls`, any converter `o.imageConv`
+    of the family) are, in call order, the images of the package in document order as C17 specifies it from
+    the XML (`c20_docOrder`: `c17_storyImages` of the body — reading order of the XML — then the images of
+    the rendered notes and comments), when the body has no vertical-merge continuation cell and the style map
+    has no `!` mapping. -/
+theorem C20_calls_document_order (p : Package) (v : c05_View) (hview : c05_view p = some v) (fuel : Nat)
+    (base : Option Str) (world : Str → Option Bytes) (o : Options) (out : ApiOut)
+    (hout : apiConvert p fuel base world id o = .ok out)
+    (hvm : c01_noVMergeL v.body = true)
+    (hig : c01_noIgnoreMap (c05_apiCfg p base world o (c17_embOf p o)) = true) :
+    out.imageCalls = c20_docOrder (c05_apiCfg p base world o (c17_embOf p o)) v out.document :=
+  c20_calls_docOrder p v hview fuel base world o out hout hvm hig
+
+/-- `--output-dir dir`, HTML, A PACKAGE WHOSE PICTURES CAN ALL BE OPENED.  `imgs` = the images of the package in
+    DOCUMENT ORDER (`c20_docOrder`, from the XML).  Hypotheses (all decidable): the package can be viewed
+    (`c05_view`), the library call succeeds (`hout`), no vertical-merge continuation cell in the body, the
+    style map (explicit + embedded + built-in) has no `!`, does not mention `img`, uses plain names; every image
+    has a content type and can be opened.  Then the command succeeds (exit 0, nothing on stdout, stderr = the
+    library's messages) and
+    * it writes exactly `n + 1` files, `n = imgs.length`;
+    * for k = 0 … n-1, file k is `dir/<k+1>.<subtype>` (`subtype` = what follows the first "/" of the content
+      type of image k, `C20_subtype`) and holds EXACTLY the bytes `b` that opening image k yields
+      (`c17_opened`; for an embedded image the bytes of its part, `C20_embedded_bytes`);
+    * file n is `dir/<stem>.html` (`C20_output_name`) and holds `utf8Encode value`, where `value` is accepted
+      by the strict HTML lexer, all its `img` start tags are void, there are exactly `n` of them, and the k-th
+      has `src = <k+1>.<subtype>` — the name of file k — and `alt` = the alt text of image k. -/
+theorem C20_output_dir_images (args : CliArgs) (p : Package) (world : Str → Option Bytes) (fuel : Nat)
+    (dir : Str) (v : c05_View) (out : ApiOut)
+    (hv : args.valid = true) (hd : args.outputDir = some dir) (hf : c20_format args.format = some .html)
+    (hview : c05_view p = some v)
+    (hout : apiConvert p fuel (some (c20_dirname args.path)) world id
+          { styleMap := args.styleMap, format := .html, imageConv := c20_writerConv } = .ok out)
+    (hvm : c01_noVMergeL v.body = true)
+    (hig : c01_noIgnoreMap (c20_dirCfg args p world .html) = true)
+    (hi : c17_noImgMap (c20_dirCfg args p world .html) = true)
+    (hp : c02_plainCfg (c20_dirCfg args p world .html) = true)
+    (ht : c20_allTyped (c20_docOrder (c20_dirCfg args p world .html) v out.document) = true)
+    (hpr : c17_allPresent (c20_openCfg args p world)
+            (c20_docOrder (c20_dirCfg args p world .html) v out.document) = true) :
+    ∃ res value toks, c20_cli args p world fuel = .ok res ∧
+      res.exitCode = 0 ∧ res.stdout = [] ∧ res.stderr = out.messages ∧
+      res.files.length = (c20_docOrder (c20_dirCfg args p world .html) v out.document).length + 1 ∧
+      res.files[(c20_docOrder (c20_dirCfg args p world .html) v out.document).length]? =
+        some (posixJoin dir (cliOutputName args.path), utf8Encode value) ∧
+      c02_lexHtml value = some toks ∧ c17_tokImgs toks = c17_tokVoidImgs toks ∧
+      (c17_tokVoidImgs toks).length = (c20_docOrder (c20_dirCfg args p world .html) v out.document).length ∧
+      ∀ k i, (c20_docOrder (c20_dirCfg args p world .html) v out.document)[k]? = some i →
+        ∃ ct b, i.contentType = some ct ∧ c17_opened (c20_openCfg args p world) i.src = some b ∧
+          res.files[k]? = some (posixJoin dir (natToStr (k + 1) ++ ['.'] ++ imageSubtype ct), b) ∧
+          ((c17_tokVoidImgs toks)[k]?).map c17_srcAltOf =
+            some (some (natToStr (k + 1) ++ ['.'] ++ imageSubtype ct), c17_altOut i) := by
+  have hout' : c20_convert args p world fuel .html c20_writerConv = .ok out := hout
+  have hcalls : out.imageCalls = c20_docOrder (c20_dirCfg args p world .html) v out.document :=
+    c20_calls_docOrder p v hview fuel _ world _ out hout hvm hig
+  rw [← hcalls] at ht hpr ⊢
+  obtain ⟨res, hres, e0, e1, e2, _, efiles, _⟩ := c20_dir_run args p world fuel .html dir out hv hf hd hout' ht
+  obtain ⟨toks, hl, hvoid, htoks⟩ := c20_dir_html args p world fuel dir out hout' ht hi hp
+  -- every image opens: the filter keeps them all
+  have hall : out.imageCalls.filter (c20_okf (c20_openCfg args p world)) = out.imageCalls := by
+    rw [List.filter_eq_self]
+    intro i hi'
+    simp only [c17_allPresent, List.all_eq_true] at hpr
+    exact hpr i hi'
+  rw [hall] at htoks
+  have hlen := c20_dir_files_length args p world dir out ht
+  refine ⟨res, _, toks, hres, e0, e1, e2, ?_, ?_, hl, hvoid, ?_, ?_⟩
+  · rw [efiles]; simp [hlen]
+  · rw [efiles, List.getElem?_append_right (by omega), hlen]; simp
+  · rw [htoks, List.length_map, c20_numbered_length]
+  · intro k i hk
+    obtain ⟨ct, hct, hfile⟩ := c20_dir_file_get args p world dir out ht k i hk
+    have hb : ∃ b, c17_opened (c20_openCfg args p world) i.src = some b := by
+      simp only [c17_allPresent, List.all_eq_true] at hpr
+      have := hpr i (List.mem_of_getElem? hk)
+      cases hop : c17_opened (c20_openCfg args p world) i.src with
+      | none => rw [hop] at this; cases this
+      | some b => exact ⟨b, rfl⟩
+    obtain ⟨b, hb⟩ := hb
+    have hcount : ((out.imageCalls.take k).filter (c20_okf (c20_openCfg args p world))).length = k := by
+      have : (out.imageCalls.take k).filter (c20_okf (c20_openCfg args p world)) = out.imageCalls.take k := by
+        rw [List.filter_eq_self]
+        intro j hj
+        simp only [c17_allPresent, List.all_eq_true] at hpr
+        exact hpr j (List.mem_of_mem_take hj)
+      rw [this, List.length_take]
+      have : k < out.imageCalls.length := by
+        by_cases h : k < out.imageCalls.length
+        · exact h
+        · rw [List.getElem?_eq_none (by omega)] at hk; cases hk
+      omega
+    obtain ⟨ct', hct', hsrc⟩ := c20_numbered_srcAlt out.imageCalls ht k i hk
+    rw [hct] at hct'; cases hct'
+    refine ⟨ct, b, hct, hb, ?_, ?_⟩
+    · have hlt : k < (imageWriterRunO dir 1 (c20_writerInput args p world out)).1.length := by
+        rw [hlen]
+        by_cases h : k < out.imageCalls.length
+        · exact h
+        · rw [List.getElem?_eq_none (by omega)] at hk; cases hk
+      rw [efiles, List.getElem?_append_left hlt, hfile, hcount, hb, Nat.add_comm 1 k]
+      rfl
+    · rw [htoks]; exact hsrc
+
+/-- the bytes an embedded image opens to are the bytes of its part in the package (last entry of that name) -/
+theorem C20_embedded_bytes (args : CliArgs) (p : Package) (world : Str → Option Bytes) (name : Str) :
+    c17_opened (c20_openCfg args p world) (.embedded name) = lookupLast name (archiveBytes p) := rfl
+
+/-- `--output-dir dir`, HTML, PICTURES THAT CANNOT BE OPENED (linked pictures whose file / URL cannot be read).
+    `calls` = `out.imageCalls`, the images handed to the `ImageWriter` in call order (= document order,
+    `C20_calls_document_order`), all with a content type; "opens" = `c17_opened … ≠ none`.  What the model says,
+    exactly (the real command does the same, see the example below):
+    * the command succeeds: exit status 0, stdout empty, stderr = the library's messages;
+    * `calls.length + 1` files are written, the last one `dir/<stem>.html`;
+    * THE COUNTER ADVANCES ONLY ON SUCCESS: the file written for the image at position k is named
+      `<c+1>.<subtype>` where `c` is the number of images BEFORE it that opened; it holds the image's bytes if
+      the image opens and is EMPTY if it does not (the destination is created before the source is opened) —
+      the number is then used again by the next image (`C20_failed_open_keeps_number`);
+    * the HTML has one void `img` per image that OPENS, none for the others: the j-th `img` has
+      `src = <j+1>.<subtype>` and the alt text of the j-th image that opens;
+    * every image that does not open has a warning text (`c16_openError`: it is a linked image) and this
+      warning is written to stderr. -/
+theorem C20_counter_only_advances_on_success (args : CliArgs) (p : Package) (world : Str → Option Bytes)
+    (fuel : Nat) (dir : Str) (out : ApiOut)
+    (hv : args.valid = true) (hd : args.outputDir = some dir) (hf : c20_format args.format = some .html)
+    (hout : apiConvert p fuel (some (c20_dirname args.path)) world id
+          { styleMap := args.styleMap, format := .html, imageConv := c20_writerConv } = .ok out)
+    (hi : c17_noImgMap (c20_dirCfg args p world .html) = true)
+    (hp : c02_plainCfg (c20_dirCfg args p world .html) = true)
+    (ht : c20_allTyped out.imageCalls = true) :
+    ∃ res value toks, c20_cli args p world fuel = .ok res ∧
+      res.exitCode = 0 ∧ res.stdout = [] ∧ res.stderr = out.messages ∧
+      res.files.length = out.imageCalls.length + 1 ∧
+      res.files[out.imageCalls.length]? = some (posixJoin dir (cliOutputName args.path), utf8Encode value) ∧
+      c02_lexHtml value = some toks ∧ c17_tokImgs toks = c17_tokVoidImgs toks ∧
+      (c17_tokVoidImgs toks).length =
+        (out.imageCalls.filter (c20_okf (c20_openCfg args p world))).length ∧
+      (∀ k i, out.imageCalls[k]? = some i →
+        ∃ ct bytes, i.contentType = some ct ∧
+          res.files[k]? = some (posixJoin dir (natToStr
+            (((out.imageCalls.take k).filter (c20_okf (c20_openCfg args p world))).length + 1)
+              ++ ['.'] ++ imageSubtype ct), bytes) ∧
+          (∀ b, c17_opened (c20_openCfg args p world) i.src = some b → bytes = b) ∧
+          (c17_opened (c20_openCfg args p world) i.src = none → bytes = [])) ∧
+      (∀ j i, (out.imageCalls.filter (c20_okf (c20_openCfg args p world)))[j]? = some i →
+        ∃ ct, i.contentType = some ct ∧
+          ((c17_tokVoidImgs toks)[j]?).map c17_srcAltOf =
+            some (some (natToStr (j + 1) ++ ['.'] ++ imageSubtype ct), c17_altOut i)) ∧
+      (∀ i ∈ out.imageCalls, c17_opened (c20_openCfg args p world) i.src = none →
+        ∃ m, c16_openError (c20_openCfg args p world) i.src = some m ∧ m ∈ res.stderr) := by
+  have hout' : c20_convert args p world fuel .html c20_writerConv = .ok out := hout
+  obtain ⟨res, hres, e0, e1, e2, _, efiles, _⟩ := c20_dir_run args p world fuel .html dir out hv hf hd hout' ht
+  obtain ⟨toks, hl, hvoid, htoks⟩ := c20_dir_html args p world fuel dir out hout' ht hi hp
+  have hlen := c20_dir_files_length args p world dir out ht
+  refine ⟨res, _, toks, hres, e0, e1, e2, ?_, ?_, hl, hvoid, ?_, ?_, ?_, ?_⟩
+  · rw [efiles]; simp [hlen]
+  · rw [efiles, List.getElem?_append_right (by omega), hlen]; simp
+  · rw [htoks, List.length_map, c20_numbered_length]
+  · intro k i hk
+    obtain ⟨ct, hct, hfile⟩ := c20_dir_file_get args p world dir out ht k i hk
+    have hlt : k < (imageWriterRunO dir 1 (c20_writerInput args p world out)).1.length := by
+      rw [hlen]
+      by_cases h : k < out.imageCalls.length
+      · exact h
+      · rw [List.getElem?_eq_none (by omega)] at hk; cases hk
+    refine ⟨ct, (c17_opened (c20_openCfg args p world) i.src).getD [], hct, ?_, ?_, ?_⟩
+    · rw [efiles, List.getElem?_append_left hlt, hfile, Nat.add_comm 1]
+    · intro b hb; rw [hb]; rfl
+    · intro hb; rw [hb]; rfl
+  · intro j i hj
+    obtain ⟨ct, hct, hsrc⟩ := c20_numbered_srcAlt _ (c20_allTyped_filter _ _ ht) j i hj
+    exact ⟨ct, hct, by rw [htoks]; exact hsrc⟩
+  · intro i hi' hop
+    obtain ⟨m, hm, hmem⟩ := c20_dir_warned args p world fuel .html out hout' i hi' hop
+    exact ⟨m, hm, by rw [e2]; exact hmem⟩
+
+/-- a picture that does not open does not consume a number: the count of opened pictures before position
+    `k + 1` is the count before position `k`, so the next picture's file and `src` carry the number the empty
+    file carries -/
+theorem C20_failed_open_keeps_number (cfg : Cfg) (calls : List ImageProps) (k : Nat) (i : ImageProps)
+    (hk : calls[k]? = some i) (hop : c17_opened cfg i.src = none) :
+    ((calls.take (k + 1)).filter (c20_okf cfg)).length = ((calls.take k).filter (c20_okf cfg)).length := by
+  have hf : c20_okf cfg i = false := by simp [c20_okf, hop]
+  rw [List.take_add_one, hk]
+  simp [List.filter_append, hf]
+
+/-- … and one that opens advances it by exactly one -/
+theorem C20_successful_open_advances (cfg : Cfg) (calls : List ImageProps) (k : Nat) (i : ImageProps) (b : Bytes)
+    (hk : calls[k]? = some i) (hop : c17_opened cfg i.src = some b) :
+    ((calls.take (k + 1)).filter (c20_okf cfg)).length = ((calls.take k).filter (c20_okf cfg)).length + 1 := by
+  have hf : c20_okf cfg i = true := by simp [c20_okf, hop]
+  rw [List.take_add_one, hk]
+  simp [List.filter_append, hf]
+
+/-- `--output-dir dir`, EITHER FORMAT (`--output-format` absent, `html` or `markdown`), any style-map text, no
+    hypothesis on the style map: when every image handed to the `ImageWriter` has a content type, the command
+    succeeds; stderr = the messages of the library call, one per line, in order; the files are the image files
+    — numbered and filled as in `C20_counter_only_advances_on_success`, in call order — followed by
+    `dir/<stem>.html` (this name also for Markdown) holding the UTF-8 encoding of the value the library returns
+    under the `ImageWriter` (`c20_dirValue`); nothing on stdout. -/
+theorem C20_output_dir_files (args : CliArgs) (p : Package) (world : Str → Option Bytes)
+    (fuel : Nat) (fmt : Format) (dir : Str) (out : ApiOut)
+    (hv : args.valid = true) (hd : args.outputDir = some dir) (hf : c20_format args.format = some fmt)
+    (hout : apiConvert p fuel (some (c20_dirname args.path)) world id
+          { styleMap := args.styleMap, format := fmt, imageConv := c20_writerConv } = .ok out)
+    (ht : c20_allTyped out.imageCalls = true) :
+    ∃ res, c20_cli args p world fuel = .ok res ∧
+      res.exitCode = 0 ∧ res.stdout = [] ∧ res.stderr = out.messages ∧
+      res.stderrText = stderrTextOf out.messages ∧
+      res.files.length = out.imageCalls.length + 1 ∧
+      res.files[out.imageCalls.length]? = some (posixJoin dir (cliOutputName args.path),
+        utf8Encode (c20_dirValue dir fmt (c20_writerInput args p world out) out)) ∧
+      (∀ k i, out.imageCalls[k]? = some i →
+        ∃ ct bytes, i.contentType = some ct ∧
+          res.files[k]? = some (posixJoin dir (natToStr
+            (((out.imageCalls.take k).filter (c20_okf (c20_openCfg args p world))).length + 1)
+              ++ ['.'] ++ imageSubtype ct), bytes) ∧
+          (∀ b, c17_opened (c20_openCfg args p world) i.src = some b → bytes = b) ∧
+          (c17_opened (c20_openCfg args p world) i.src = none → bytes = [])) := by
+  have hout' : c20_convert args p world fuel fmt c20_writerConv = .ok out := hout
+  obtain ⟨res, hres, e0, e1, e2, e3, efiles, _⟩ := c20_dir_run args p world fuel fmt dir out hv hf hd hout' ht
+  have hlen := c20_dir_files_length args p world dir out ht
+  refine ⟨res, hres, e0, e1, e2, e3, ?_, ?_, ?_⟩
+  · rw [efiles]; simp [hlen]
+  · rw [efiles, List.getElem?_append_right (by omega), hlen]; simp
+  · intro k i hk
+    obtain ⟨ct, hct, hfile⟩ := c20_dir_file_get args p world dir out ht k i hk
+    have hlt : k < (imageWriterRunO dir 1 (c20_writerInput args p world out)).1.length := by
+      rw [hlen]
+      by_cases h : k < out.imageCalls.length
+      · exact h
+      · rw [List.getElem?_eq_none (by omega)] at hk; cases hk
+    refine ⟨ct, (c17_opened (c20_openCfg args p world) i.src).getD [], hct, ?_, ?_, ?_⟩
+    · rw [efiles, List.getElem?_append_left hlt, hfile, Nat.add_comm 1]
+    · intro b hb; rw [hb]; rfl
+    · intro hb; rw [hb]; rfl
+
+/-- `--output-dir` with an image WITHOUT content type: the composed command dies as `C20_unknown_type_crash`
+    says — exit status 1, no HTML file, no message, nothing on stdout -/
+theorem C20_output_dir_untyped_crash (args : CliArgs) (p : Package) (world : Str → Option Bytes)
+    (fuel : Nat) (fmt : Format) (dir : Str) (out : ApiOut)
+    (hv : args.valid = true) (hd : args.outputDir = some dir) (hf : c20_format args.format = some fmt)
+    (hout : apiConvert p fuel (some (c20_dirname args.path)) world id
+          { styleMap := args.styleMap, format := fmt, imageConv := c20_writerConv } = .ok out)
+    (ht : c20_allTyped out.imageCalls = false) :
+    ∃ res, c20_cli args p world fuel = .ok res ∧
+      res.exitCode = 1 ∧ res.stdout = [] ∧ res.stderr = [] ∧
+      res.files = (imageWriterRunO dir 1 (c20_writerInput args p world out)).1 := by
+  have hout' : c20_convert args p world fuel fmt c20_writerConv = .ok out := hout
+  have hty : c20_typed (c20_writerInput args p world out) = false := by
+    rw [c20_writerInput_eq args p world fmt, c20_input_typed]; exact ht
+  rw [c20_cli_dir args p world fuel fmt dir hv hf hd, hout']
+  exact ⟨_, rfl, C20_unknown_type_crash args _ _ _ dir hd (c20_valid_output args dir hv hd) hty⟩
+
+/-! ### examples for the end-to-end theorems (all evaluated by the kernel; the real command was run on the
+  same inputs — `python -m mammoth.cli in/a.docx --output-dir=out` etc. — and wrote the same bytes)
+
+  `c17_exPackage` (`Proofs/C17_Example.lean`): three pictures of different types — a png inline picture, a
+  gif `v:imagedata` in a text box that precedes it in the XML but follows it in reading order, a jpeg in an
+  anchored drawing inside a table — typed by `Default`, `Override` and the built-in extension table. -/
+
+private def c20_exArgs : CliArgs := { path := S!"in/a.docx", outputDir := some S!"out" }
+
+/-- the hypotheses of `C20_output_dir_images` hold for it (built-in style map included): valid arguments, the
+    package is viewed, no continuation cell, the library call succeeds, the document order is the three images
+    png, gif, jpeg, all typed and present; no `!`, no `img`, plain names -/
+example : c20_exArgs.valid = true ∧ c20_exArgs.outputDir = some S!"out" ∧
+    c20_format c20_exArgs.format = some .html ∧
+    (match c05_view c17_exPackage with
+      | some v => c01_noVMergeL v.body &&
+          c17_okAnd (apiConvert c17_exPackage 30 (some (c20_dirname c20_exArgs.path)) (fun _ => none) id
+              { styleMap := c20_exArgs.styleMap, format := .html, imageConv := c20_writerConv })
+            (fun out =>
+              decide (c20_docOrder (c20_dirCfg c20_exArgs c17_exPackage (fun _ => none) .html) v out.document
+                = c17_exImages) &&
+              c20_allTyped (c20_docOrder (c20_dirCfg c20_exArgs c17_exPackage (fun _ => none) .html) v out.document) &&
+              c17_allPresent (c20_openCfg c20_exArgs c17_exPackage (fun _ => none))
+                (c20_docOrder (c20_dirCfg c20_exArgs c17_exPackage (fun _ => none) .html) v out.document))
+      | none => false) = true ∧
+    c01_noIgnoreMap (c20_dirCfg c20_exArgs c17_exPackage (fun _ => none) .html) = true ∧
+    c17_noImgMap (c20_dirCfg c20_exArgs c17_exPackage (fun _ => none) .html) = true ∧
+    c02_plainCfg (c20_dirCfg c20_exArgs c17_exPackage (fun _ => none) .html) = true := by
+  decide +kernel
+
+/-- and this is everything the command writes for it: `1.png`, `2.gif`, `3.jpeg` with exactly the bytes of the
+    parts `word/media/image1.png`, `word/media/image3.bin`, `word/media/image2.JPG` (document order, not part
+    order), then `a.html` whose three `img`s have `src` = these names -/
+example : c17_okAnd (c20_cli c20_exArgs c17_exPackage (fun _ => none) 30) (fun o => decide (o =
+    { files := [(S!"out/1.png", c17_exPng), (S!"out/2.gif", c17_exGif), (S!"out/3.jpeg", c17_exJpg),
+        (S!"out/a.html", utf8Encode S!"<p>see <img alt=\"first\" src=\"1.png\" /></p><img alt=\"third\" src=\"2.gif\" /><table><tr><td><p><img alt=\"second\" src=\"3.jpeg\" /></p></td></tr></table>")],
+      srcs := [S!"1.png", S!"2.gif", S!"3.jpeg"] })) = true := by decide +kernel
+
+/-- the same package in Markdown with `--output-dir`: the same image files, the Markdown in `a.html` -/
+example : c17_okAnd (c20_cli { c20_exArgs with format := some S!"markdown" } c17_exPackage (fun _ => none) 30)
+    (fun o => decide (o.files =
+      [(S!"out/1.png", c17_exPng), (S!"out/2.gif", c17_exGif), (S!"out/3.jpeg", c17_exJpg),
+       (S!"out/a.html", utf8Encode S!"see ![first](1.png)\n\n![third](2.gif)![second](3.jpeg)\n\n")])) = true := by
+  decide +kernel
+
+/-- `C20_stdout_is_value` / `C20_stderr_is_messages`: Markdown to stdout under a style-map file with a line the
+    library does not understand: stdout = the library's value, the warning on stderr, no file -/
+private def c20_exArgsMd : CliArgs :=
+  { path := S!"in/a.docx", format := some S!"markdown", styleMap := some S!"p => h2:fresh\nwhat is this" }
+example : c17_okAnd (c20_cli c20_exArgsMd c17_exPackage (fun _ => none) 30) (fun o => decide (o =
+    { stdout := utf8Encode S!"## see ![first](data:image/png;base64,iVBORw==)\n\n![third](data:image/gif;base64,R0lG)## ![second](data:image/jpeg;base64,/9j/)\n\n",
+      stderr := [S!"Did not understand this style mapping, so ignored it: what is this"],
+      stderrText := S!"Did not understand this style mapping, so ignored it: what is this\n" })) = true := by
+  decide +kernel
+
+/-- `C20_file_is_value`: HTML to an output path, a non-ASCII style-map text -/
+private def c20_exArgsFile : CliArgs :=
+  { path := S!"a.docx", output := some S!"o.html", styleMap := some S!"p => p.é:fresh" }
+example : c17_okAnd (c20_cli c20_exArgsFile c17_exPackage (fun _ => none) 30) (fun o =>
+    decide (o.files = [(S!"o.html", utf8Encode S!"<p>see <img alt=\"first\" src=\"data:image/png;base64,iVBORw==\" /></p><img alt=\"third\" src=\"data:image/gif;base64,R0lG\" /><table><tr><td><p><img alt=\"second\" src=\"data:image/jpeg;base64,/9j/\" /></p></td></tr></table>")]) &&
+    decide (o.stdout = []) &&
+    decide (o.stderr = [S!"Did not understand this style mapping, so ignored it: p => p.é:fresh"])) = true := by
+  decide +kernel
+
+/-- usage errors -/
+example : c17_okAnd (c20_cli { path := S!"a.docx", output := some S!"o.html", outputDir := some S!"d" }
+      c17_exPackage (fun _ => none) 30) (fun o => decide (o = { exitCode := 2 })) = true ∧
+    c17_okAnd (c20_cli { path := S!"a.docx", format := some S!"pdf" }
+      c17_exPackage (fun _ => none) 30) (fun o => decide (o = { exitCode := 2 })) = true := by decide +kernel
+
+/-- `os.path.dirname` -/
+example : [S!"a.docx", S!"d/a.docx", S!"/a.docx", S!"//a.docx", S!"d//a.docx", S!"/x/y/a.docx", S!"///x//y"].map
+    c20_dirname = [S!"", S!"d", S!"/", S!"//", S!"d", S!"/x/y", S!"///x"] := by decide
+
+/-- `C20_counter_only_advances_on_success` on `c20_exFailPackage` (input `in2/b.docx`; next to it only
+    `there.jpeg` exists): four pictures — a linked gif that cannot be opened, an embedded png, a linked jpeg that
+    can, a linked png that cannot.  Hypotheses: -/
+private def c20_exFailArgs : CliArgs := { path := S!"in2/b.docx", outputDir := some S!"out3" }
+example : c17_noImgMap (c20_dirCfg c20_exFailArgs c20_exFailPackage c20_exWorld .html) = true ∧
+    c02_plainCfg (c20_dirCfg c20_exFailArgs c20_exFailPackage c20_exWorld .html) = true ∧
+    c17_okAnd (apiConvert c20_exFailPackage 30 (some (c20_dirname c20_exFailArgs.path)) c20_exWorld id
+        { styleMap := c20_exFailArgs.styleMap, format := .html, imageConv := c20_writerConv })
+      (fun out => c20_allTyped out.imageCalls &&
+        decide (out.imageCalls.map (fun i => (i.contentType, c17_opened (c20_openCfg c20_exFailArgs c20_exFailPackage c20_exWorld) i.src))
+          = [(some S!"image/gif", none), (some S!"image/png", some [7]), (some S!"image/jpeg", some [9, 8]),
+             (some S!"image/png", none)])) = true := by
+  decide +kernel
+
+/-- … and what is written: an EMPTY `1.gif` (number 1 not consumed), `1.png`, `2.jpeg`, an EMPTY `3.png`; the
+    HTML has two `img`s, `1.png` and `2.jpeg`; the two warnings on stderr.  (The real command writes the same
+    four files and the same HTML; its two warning messages continue, after a newline, with the text of the OS
+    error, which the model leaves out.) -/
+example : c17_okAnd (c20_cli c20_exFailArgs c20_exFailPackage c20_exWorld 30) (fun o => decide (o =
+    { files := [(S!"out3/1.gif", []), (S!"out3/1.png", [7]), (S!"out3/2.jpeg", [9, 8]), (S!"out3/3.png", []),
+        (S!"out3/b.html", utf8Encode S!"<p><img alt=\"b\" src=\"1.png\" /><img alt=\"c\" src=\"2.jpeg\" /></p>")],
+      srcs := [S!"1.png", S!"2.jpeg"],
+      stderr := [S!"could not open external image: 'missing.gif' (document directory: 'in2')",
+                 S!"could not open external image: 'gone.png' (document directory: 'in2')"],
+      stderrText := S!"could not open external image: 'missing.gif' (document directory: 'in2')\ncould not open external image: 'gone.png' (document directory: 'in2')\n" }))
+    = true := by decide +kernel
+
+/-- the substitution is needed only for the converter's own `img`s: with a style mapping `p => img` (excluded by
+    `c17_noImgMap`) the paragraph's `img` element has no `data-len` mark and is left alone -/
+example :
+    c17_imgs (c20_putSrcs [S!"1.png"] [el S!"img" [] [], el S!"img" [(S!"alt", S!"x"), (S!"data-len", S!"3")] []]).1
+    = [c17_imgTag [], c17_imgTag [(S!"alt", S!"x"), (S!"src", S!"1.png")]] := by decide
+
+/-- `C20_output_dir_untyped_crash`: the three-picture package without its `[Content_Types].xml` entries —
+    `image1.png` is still typed by its extension, `image3.bin` has no content type: the command dies (exit
+    status 1) after writing `1.png`; no HTML, no message (the real command: AttributeError, the same file) -/
+private def c20_exUntyped : Package :=
+  { parts := (S!"[Content_Types].xml", .xml (c17_x S!"content-types:Types" [])) :: c17_exPackage.parts.drop 1 }
+example : c17_okAnd (c20_cli { path := S!"in/u.docx", outputDir := some S!"outu" } c20_exUntyped (fun _ => none) 30)
+    (fun o => decide (o = { files := [(S!"outu/1.png", c17_exPng)], srcs := [S!"1.png"], exitCode := 1 })) = true := by
+  decide +kernel
 
 end Mammoth
